@@ -6,7 +6,10 @@ package main
 import (
 	"encoding/binary"
 	"encoding/json"
+	"fmt"
 	"math"
+	"strings"
+	"sync"
 
 	"github.com/advancedclimatesystems/gonnx"
 	"github.com/advancedclimatesystems/gonnx/onnx"
@@ -102,5 +105,39 @@ func execDecodeCase(c *Case) []ModeResult {
 		return collect([]string{"w"}, out)
 	})
 	res = append(res, ModeResult{"load+Run", Verdict(c, b), b.Short()})
+	// decoding is a function of the payload: eight goroutines decoding the same tensor at the same time all obtain the value
+	if c.Allowed.Must == "value" && len(x.Raw)+len(x.Vals) >= 4 {
+		const G, rounds = 8, 60
+		bad := make([]string, G)
+		var wg sync.WaitGroup
+		for g := 0; g < G; g++ {
+			wg.Add(1)
+			go func(g int) {
+				defer wg.Done()
+				tp := mkProtoX(x, "w")
+				for k := 0; k < rounds && bad[g] == ""; k++ {
+					o := guard(func() Observation {
+						t, err := onnx.TensorFromProto(tp)
+						if err != nil {
+							return observeErr(err)
+						}
+						return valueObs([]tensor.Tensor{t})
+					})
+					if v := Verdict(c, o); v != "pass" && !strings.HasPrefix(v, "known:") {
+						bad[g] = fmt.Sprintf("goroutine %d, decode %d: %s | observed: %s", g, k+1, v, o.Short())
+					}
+				}
+			}(g)
+		}
+		wg.Wait()
+		verdict := "pass"
+		for _, m := range bad {
+			if m != "" {
+				verdict = "violation:concurrent decodes of one tensor disagree with its value: " + strings.TrimPrefix(m, "violation:")
+				break
+			}
+		}
+		res = append(res, ModeResult{"concurrent-decode", verdict, ""})
+	}
 	return res
 }
